@@ -102,8 +102,25 @@ Definition handler_ok (f : facts) (h : string * list string) : bool :=
   | None => false
   end.
 
+(** genesis import: every genesis denom gets EXACTLY the admin its genesis entry states (Model.v:
+    [Reimport] is the identity; Check.v [genesis_ok]) — written per entry, under the entry's own denom
+    string, with no condition in front of it *)
+Definition genesis_admin_write : string :=
+  "write:k.Store.denomAdmins.Insert(tftypes.DenomStr(genDenom.Denom).MustToStruct().Denom().String(),tftypes.DenomAuthorityMetadata{Admin:genDenom.AuthorityMetadata.Admin})".
+
+Definition init_genesis_ok (f : facts) : bool :=
+  match lookup_h "InitGenesis" (f_events f) with
+  | Some evs =>
+      mem_s "foreach:genState.GetFactoryDenoms()" evs && mem_s genesis_admin_write evs &&
+      forallb (fun e => negb (String.prefix "guard:" e) && negb (String.prefix "accept-if:" e) &&
+                        negb (String.prefix "cond-write:k.Store.denomAdmins" e)) evs &&
+      (* no other write to the admin records *)
+      forallb (fun e => negb (String.prefix "write:k.Store.denomAdmins" e) || String.eqb e genesis_admin_write) evs
+  | None => false
+  end.
+
 Definition facts_ok (f : facts) : bool :=
-  forallb (handler_ok f) model_events &&
+  forallb (handler_ok f) model_events && init_genesis_ok f &&
   (* the admin record is looked up under the raw denom string the caller passes *)
   String.eqb (f_get_admin_key f) "denom" && String.eqb (f_get_authority_key f) "denom" &&
   (* existence = bank metadata of denom.Denom().String() *)
